@@ -56,7 +56,7 @@ func (c *Ctx) errNameOf(v ssa.Value) string {
 	switch x := v.(type) {
 	case *ssa.Call:
 		sc := x.Common().StaticCallee()
-		if sc != nil && sc.Name() == "e" && len(x.Common().Args) >= 2 {
+		if c.isFn(sc, "postscript", "Interpreter", "e") && len(x.Common().Args) >= 2 {
 			return c.nameConst(x.Common().Args[1])
 		}
 	case *ssa.Alloc:
